@@ -13,7 +13,9 @@ Public entry points
     check_tables(chk, d)                              the model's Basix/UFL tables vs the installed libraries (complete)
     check_selection(chk, d, seed, n)                  seeded generator of real UFL forms through the REAL
                                                       analyze_ufl_objects + compute_ir vs the model; `d` is an open
-                                                      `lean.Driver("driver_quadsel")`
+                                                      `lean.Driver("driver_quadsel")`; ends with check_regressions
+    check_regressions(chk)                            the forms of the repaired defects (c4a6950, 605b08f) compiled and
+                                                      compared numerically with the oracle on every local entity
     python -m harness.quadsel_checks                  stand-alone runner (never writes evidence files)
 
 What is compared for every generated form (see `compare`):
@@ -61,12 +63,12 @@ QUADSEL_FILES = [LEAN / "FfcxModel/Quadrature/Select.lean", LEAN / "FfcxModel/Dr
 QUADSEL_THEOREMS = [
     "Ffcx.QuadSel.explicit_degree_honoured", "Ffcx.QuadSel.default_degree_is_estimate", "Ffcx.QuadSel.scheme_honoured",
     "Ffcx.QuadSel.custom_only_from_own_elements", "Ffcx.QuadSel.custom_only_from_own_elements_analysis", "Ffcx.QuadSel.custom_overrides",
-    "Ffcx.QuadSel.vertex_scheme_entity", "Ffcx.QuadSel.vertex_scheme_entity_cell", "Ffcx.QuadSel.vertex_scheme_entity_table",
-    "Ffcx.QuadSel.vertex_scheme_entity_counterexample", "Ffcx.QuadSel.vertex_scheme_point_counterexample",
-    "Ffcx.QuadSel.rule_lives_on_entity", "Ffcx.QuadSel.rule_lives_on_entity_prism", "Ffcx.QuadSel.custom_cell_counterexample",
+    "Ffcx.QuadSel.vertex_scheme_entity", "Ffcx.QuadSel.vertex_scheme_entity_table", "Ffcx.QuadSel.vertex_integral_point_rule",
+    "Ffcx.QuadSel.regression_shared_cell_type", "Ffcx.QuadSel.regression_vertex_scheme_on_vertex_integral",
+    "Ffcx.QuadSel.rule_lives_on_entity", "Ffcx.QuadSel.rule_lives_on_entity_prism",
     "Ffcx.QuadSel.grouping_partition", "Ffcx.QuadSel.grouping_same_iff", "Ffcx.QuadSel.grouping_perm", "Ffcx.QuadSel.summed_sum",
     "Ffcx.QuadSel.summed_rule_is_first",
-    "Ffcx.QuadSel.selection_independent_of_order", "Ffcx.QuadSel.selection_perm", "Ffcx.QuadSel.selection_order_counterexample",
+    "Ffcx.QuadSel.selection_independent_of_order", "Ffcx.QuadSel.selection_perm", "Ffcx.QuadSel.selection_perm_error",
     "Ffcx.QuadSel.tensor_flag_order_counterexample", "Ffcx.QuadSel.rejects_vertex_discontinuous", "Ffcx.QuadSel.rejections",
 ]
 
@@ -571,7 +573,8 @@ def _entity_types(itype, cell):
 def oracle_claims(g, it, sf):
     """What the property asks of ONE integral, looking at nothing but that integral and its integration entity.
     Returns None (no claim: the request may be rejected or has no agreed meaning) or
-    (kind, data, may_reject): the rules that must be attached; `may_reject`: raising instead is acceptable."""
+    (kind, data, may_reject, tensor_ok): the rules that must be attached; `may_reject`: raising instead is acceptable;
+    `tensor_ok`: sum factorisation applies to THIS integral (only then may its rule carry tensor factors)."""
     types, dim = _entity_types(g["itype"], g["cell"])
     if types is None:
         return None
@@ -579,7 +582,7 @@ def oracle_claims(g, it, sf):
     if customs:
         if g["itype"] != "cell" or len({(e["pts"], e["wts"]) for e in customs}) != 1:
             return None
-        return ("custom", (customs[0]["pts"], customs[0]["wts"]), False)
+        return ("custom", (customs[0]["pts"], customs[0]["wts"]), False, False)
     scheme = it["md_scheme"] if it["md_scheme"] is not None else "default"
     if dim == 0:
         # an integral over a vertex is a point evaluation whatever the metadata says; the `vertex` scheme of a
@@ -589,13 +592,13 @@ def oracle_claims(g, it, sf):
             named = True
         except Exception:  # noqa: BLE001
             named = False
-        return ("arrays", [("point", np.ones((1, 0)), np.ones(1))], scheme == "vertex" or not named)
+        return ("arrays", [("point", np.ones((1, 0)), np.ones(1))], scheme == "vertex" or not named, False)
     if scheme == "vertex":
         if len(types) != 1:
             return None
         ct = getattr(basix.CellType, types[0])
         geo = np.asarray(basix.geometry(ct), dtype=np.float64)
-        return ("arrays", [(types[0], geo, np.full(geo.shape[0], basix.cell.volume(ct) / geo.shape[0]))], False)
+        return ("arrays", [(types[0], geo, np.full(geo.shape[0], basix.cell.volume(ct) / geo.shape[0]))], False, False)
     deg = it["md_degree"] if (it["md_degree"] is not None and it["md_degree"] >= 0) else max(it["est"])
     try:
         qt = basix.quadrature.string_to_type(scheme)
@@ -620,11 +623,11 @@ def oracle_claims(g, it, sf):
                 out.append((t, np.asarray(p), np.asarray(w)))
         except Exception:  # noqa: BLE001
             return None
-    return ("arrays", out, False)
+    return ("arrays", out, False, bool(tensor))
 
 
 def _attached(rec, pos):
-    return [(r["cell"], r["pts"], r["wts"]) for r in rec if pos in r["members"]]
+    return [(r["cell"], r["pts"], r["wts"], r["tensor"]) for r in rec if pos in r["members"]]
 
 
 def _asked(it):
@@ -648,13 +651,17 @@ def _judge(g, it, claim, rec, arrays):
         want = sorted(claim[1], key=lambda x: x[0])
     if len(att) != len(want):
         return f"{len(att)} rules attached, {len(want)} expected"
-    for (c, p, w), (ec, ep, ew) in zip(att, want):
+    for (c, p, w, tf), (ec, ep, ew) in zip(att, want):
         if c != ec:
             return f"rule filed under reference cell '{c}', the integration entity is '{ec}'"
         if np.asarray(p).shape != np.asarray(ep).shape or not np.allclose(p, ep, rtol=1e-14, atol=1e-15):
             return f"points differ ({np.asarray(p).shape[0]} points, expected {np.asarray(ep).shape[0]})"
         if not np.allclose(w, ew, rtol=1e-14, atol=1e-15):
             return f"weights differ ({[float(x) for x in np.asarray(w)[:3]]} vs {[float(x) for x in np.asarray(ew)[:3]]})"
+        if tf and not claim[3]:
+            # the rule OBJECT is shared with an integral whose elements all factorise: the generator then asks every
+            # table of the summed integrand for tensor factors
+            return "tensor-factors: the rule carries tensor factors although an element of this integral has no tensor-product factorisation"
     return None
 
 
@@ -733,7 +740,13 @@ def _violation(chk, spec, g, it, outcome, why, stats, exc):
     pos, together = _CLASSIFIED[sig]
     culprit = g["integrals"][pos]
     asked = _asked(culprit)
-    if together:
+    if why.startswith("tensor-factors:"):
+        key = f"c11:selection:tensor-factors-from-other-integral:{g['itype']}"
+        what = ("sum_factorization: an integrand with an element WITHOUT tensor-product factorisation is summed under a rule object that "
+                "carries tensor factors (the rule of another integral with identical points; `tensor_factors` are not part of the "
+                "QuadratureRule key) - code generation then fails `assert tabledata.tensor_factors is not None`; in the other order of "
+                "the integrals the kernel is generated without sum factorisation")
+    elif together:
         key = f"c11:selection:depends-on-other-integrals:{g['itype']}:{asked}"
         what = (f"a {asked} integral of a {g['itype']} subdomain gets its own rule when compiled alone but not next to the other "
                 f"integrals of the subdomain ({outcome}: {why})")
@@ -849,7 +862,9 @@ def specs(seed, n):
 
 
 def fixed_specs():
-    """hand-written forms that every run must contain (the two seeded defects of §12.4 and the order sensitivity)."""
+    """hand-written forms that every run must contain: the two seeded defects of §12.4, the inputs of the repaired defects
+    c4a6950 (shared `cell_type`: a vertex-scheme / quadrature-element integral after another facet integral, both orders) and
+    605b08f (`dP(scheme="vertex")`), prism facets, merged TP / non-TP integrands under sum_factorization."""
     out = []
     for cell in ("triangle", "tetrahedron", "quadrilateral", "hexahedron"):
         for first, second in (({"md": {"scheme": "vertex", "degree": 1}, "power": 1}, {"md": {"degree": 3}, "power": 2}),
@@ -860,6 +875,12 @@ def fixed_specs():
     for cell, deg in (("interval", 3), ("triangle", 2), ("tetrahedron", 2), ("quadrilateral", 2)):
         out.append({"cell": cell, "rank": 1, "space": ["P", 1], "groups": [{"measure": "dx", "subdomain": None, "integrals": [
             {"qe": [{"degree": deg, "scheme": "default"}], "power": 1}, {"md": {"degree": 4}, "power": 3}, {"power": 2}]}]})
+    for cell in ("interval", "triangle", "tetrahedron", "hexahedron", "prism"):
+        out.append({"cell": cell, "rank": 1, "space": ["P", 1], "groups": [{"measure": "dP", "subdomain": None, "integrals": [
+            {"md": {"scheme": "vertex"}, "power": 1}, {"md": {"degree": 2}, "power": 2}, {"md": {"scheme": "vertex", "degree": 3}, "power": 3}]}]})
+    for cell in ("tetrahedron", "hexahedron", "prism"):
+        out.append({"cell": cell, "rank": 1, "space": ["P", 1], "groups": [{"measure": "dr", "subdomain": None, "integrals": [
+            {"md": {"degree": 1}, "power": 1}, {"md": {"scheme": "vertex"}, "power": 2}, {"md": {"degree": 3}, "power": 3}]}]})
     out.append({"cell": "prism", "rank": 1, "space": ["P", 1], "groups": [{"measure": "ds", "subdomain": None, "integrals": [
         {"md": {"degree": 2}, "power": 1}, {"md": {"degree": 4}, "power": 2}, {"power": 3}]}]})
     for cell in ("quadrilateral", "hexahedron"):
@@ -935,6 +956,48 @@ def check_tables(chk, d):
     return n
 
 
+def regression_entries(tier="quick"):
+    """the two repaired defects as compiled forms: c4a6950 (a `vertex`-scheme facet integral AFTER a default-scheme one in UFL's
+    order, exterior and interior facets) and 605b08f (`dP(scheme="vertex")`)."""
+    from ufl import Coefficient, TestFunction, dP, dS, ds
+
+    from . import corpus
+    out = []
+    cells = ["triangle", "tetrahedron"] + (["quadrilateral", "hexahedron"] if tier != "quick" else [])
+    for cell in cells:
+        for kind in ("facet", "ifacet", "vertex"):
+            def b(cell=cell, kind=kind):
+                m, V = corpus.space(cell, "Q" if cell in ("quadrilateral", "hexahedron") else "P", 1)
+                v, f = TestFunction(V), Coefficient(V)
+                if kind == "facet":
+                    return [f * v * ds(degree=2) + f * f * v * ds(degree=1, scheme="vertex") + f * f * v * ds(degree=3, scheme="vertex")]
+                if kind == "ifacet":
+                    return [f("+") * v("-") * dS(degree=2) + f("+") * f("+") * v("-") * dS(degree=1, scheme="vertex")]
+                return [f * v * dP(scheme="vertex") + f * f * v * dP(degree=2)]
+            out.append((kind, corpus.Entry(f"quadsel_regression_{kind}_{cell}", b, tags=("c11",))))
+    return out
+
+
+def check_regressions(chk):
+    """the forms of the repaired selection defects must COMPILE and agree with the oracle (harness/oracle.py applies every
+    integral's own rule on its own integration entity) for every local entity."""
+    from . import numeric
+    ents = regression_entries(chk.tier)
+    res = cjit.parallel_map(lambda i: numeric.compare_entry(ents[i][1], {}, seed=chk.seed * 13 + i, reps=1, all_entities=True), list(range(len(ents))))
+    for i, (st, r) in sorted(res.items()):
+        kind, e = ents[i]
+        key = {"facet": "c11:selection:depends-on-other-integrals:exterior_facet:vertex-scheme",
+               "ifacet": "c11:selection:depends-on-other-integrals:interior_facet:vertex-scheme",
+               "vertex": "c11:selection:not-honoured:vertex:vertex-scheme"}[kind]
+        if st != "ok" or "error" in r:
+            chk.violation(key, f"regression form {e.name} does not compile / run: {str(r if st != 'ok' else r['error'])[:200]}", {"entry": e.name})
+            continue
+        chk.case("quadsel_regression", e.name, n=max(1, r["compared"]), sample=None)
+        for bad in r["bad"][:2]:
+            chk.violation(key, f"regression form {e.name}: kernel differs from per-integral quadrature on the integration entity", {"entry": e.name, **bad})
+    chk.notes["quadsel_regressions"] = {ents[i][1].name: (r["maxrel"] if st == "ok" and "error" not in r else str(r)[:80]) for i, (st, r) in sorted(res.items())}
+
+
 def check_selection(chk, d, seed, n, parallel=True, only_specs=None):
     """seeded forms through the real pipeline vs the model; the property's oracle on the real result."""
     sp = only_specs if only_specs is not None else specs(seed, n)
@@ -970,6 +1033,8 @@ def check_selection(chk, d, seed, n, parallel=True, only_specs=None):
             stats["cells"][g["cell"]] += 1
     stats["forms"] = nforms
     chk.notes["quadsel"] = stats
+    if only_specs is None:
+        check_regressions(chk)
     return stats
 
 
